@@ -638,6 +638,105 @@ def bound_handles(ctx: Ctx) -> None:
             ctx.violation("handles:second", f"{label}.of(d2) obtained from a feature object that had been bound to d1 differs from a fresh feature bound to d2", {"feature": label})
 
 
+def fit_after_backward(ctx: Ctx) -> None:
+    """fit() on a hedger whose parameters still carry gradients of an earlier, unrelated computation (a loss of ANOTHER derivative
+    back-propagated by hand; another hedger sharing the model): the fitted parameters and the validation history equal those
+    of a fresh hedger holding the same parameters, fitted on the same paths."""
+    import copy as _copy
+    import contextlib, io
+    from pfhedge.instruments import BrownianStock, EuropeanOption, LookbackOption
+    from pfhedge.nn import EntropicRiskMeasure, Hedger
+    dt = torch.float64
+    feats = ["log_moneyness", "time_to_maturity", "volatility"]
+
+    def net(seed):
+        torch.manual_seed(seed)
+        return torch.nn.Sequential(torch.nn.Linear(3, 4, dtype=dt), torch.nn.Tanh(), torch.nn.Linear(4, 1, dtype=dt))
+
+    def market():
+        return EuropeanOption(BrownianStock(cost=1e-3, dt=0.25, dtype=dt), maturity=1.0)
+
+    for label in ("a loss of another derivative back-propagated by hand", "another hedger sharing the model back-propagated", "gradients set and then zeroed by hand"):
+        for optimizer in (torch.optim.SGD, torch.optim.Adam):
+            model = net(5)
+            used = Hedger(model, feats, criterion=EntropicRiskMeasure(1.0))
+            fresh = Hedger(_copy.deepcopy(model), feats, criterion=EntropicRiskMeasure(1.0))
+            torch.manual_seed(77)
+            if label.startswith("a loss"):
+                used.compute_loss(LookbackOption(BrownianStock(dt=0.25, dtype=dt), maturity=1.0), n_paths=6).backward()
+            elif label.startswith("another"):
+                Hedger(model, feats, criterion=EntropicRiskMeasure(2.0)).compute_loss(market(), n_paths=6).backward()
+            else:
+                used.compute_loss(market(), n_paths=6).backward()
+                for p_ in used.parameters():
+                    p_.grad.zero_()
+            out = []
+            for h in (used, fresh):
+                torch.manual_seed(123)
+                with contextlib.redirect_stderr(io.StringIO()):
+                    hist = h.fit(market(), n_epochs=3, n_paths=8, optimizer=optimizer, verbose=False)
+                out.append((hist, [p_.detach().clone() for p_ in h.parameters()]))
+            ctx.count(n=1)
+            (h1, p1), (h2, p2) = out
+            if h1 != h2 or not all(torch.equal(a, b) for a, b in zip(p1, p2)):
+                ctx.violation("history:fit-after-backward", f"fit() after {label} ({optimizer.__name__}) differs from fit() of a fresh hedger with the same parameters on the same paths",
+                              {"history_used": h1, "history_fresh": h2, "max_param_diff": max(float((a - b).abs().max()) for a, b in zip(p1, p2))})
+
+
+def stepping_order(ctx: Ctx) -> None:
+    """One bound feature evaluated step by step in an order other than 0, 1, 2, ... (skipping steps, going back), evaluated again
+    after the series was replaced by a new simulation, and re-bound to another derivative after it was stepped: get(i) is
+    column i of what a FRESH feature gives on the derivative's current series - it does not depend on the steps asked before."""
+    from pfhedge.features import Barrier, FeatureList, get_feature
+    from pfhedge.features.features import UnderlierLogSpot
+    from pfhedge.instruments import BrownianStock, EuropeanOption, HestonStock, LookbackOption
+    torch.manual_seed(11)
+    d1 = EuropeanOption(HestonStock(dt=0.125, dtype=torch.float64), maturity=1.0, strike=0.95); d1.simulate(n_paths=3)
+    d2 = LookbackOption(BrownianStock(dt=0.125, sigma=0.9, dtype=torch.float64), maturity=1.0, strike=1.1); d2.simulate(n_paths=3)
+    names = ["moneyness", "log_moneyness", "max_moneyness", "max_log_moneyness", "time_to_maturity", "expiry_time", "volatility", "variance", "underlier_spot",
+             "zeros", Barrier(1.02), Barrier(0.98, up=False), UnderlierLogSpot()]
+
+    def fresh_column(f, d, i):
+        return get_feature(f).of(d).get(None)[:, [i]]
+
+    for f in names:
+        label = f if isinstance(f, str) else f"{type(f).__name__}({getattr(f, 'threshold', '')}, up={getattr(f, 'up', '')})"
+        for wrap in ("feature", "FeatureList"):
+            mk = (lambda: get_feature(f)) if wrap == "feature" else (lambda: FeatureList([f]))
+            try:
+                h = mk().of(d1)
+                story = []
+                for i in (0, 2, 1, 5, 3, 8, 0, 7, 8):
+                    story.append(i)
+                    got, want = h.get(i), fresh_column(f, d1, i)
+                    ctx.count(n=1)
+                    if got.shape != want.shape or not bool(((got - want).abs() <= 1e-12).all()):
+                        ctx.violation("stepping:order", f"{label} ({wrap}): get({i}) after the steps {story[:-1]} differs from column {i} of a fresh feature on the same series",
+                                      {"feature": label, "steps": story, "observed": got.flatten().tolist(), "fresh": want.flatten().tolist()})
+                        raise StopIteration
+                keep = d1.ul().spot.clone()
+                d1.simulate(n_paths=3)                                   # new series between two steps
+                for i in (4, 6):
+                    got, want = h.get(i), fresh_column(f, d1, i)
+                    ctx.count(n=1)
+                    if got.shape != want.shape or not bool(((got - want).abs() <= 1e-12).all()):
+                        ctx.violation("stepping:new-series", f"{label} ({wrap}): get({i}) after a new simulation still carries values of the previous series",
+                                      {"feature": label, "observed": got.flatten().tolist(), "fresh": want.flatten().tolist()})
+                        raise StopIteration
+                h2 = h.of(d2)                                            # re-bound after it was stepped
+                for i in (7, 2):
+                    got, want = h2.get(i), fresh_column(f, d2, i)
+                    ctx.count(n=1)
+                    if got.shape != want.shape or not bool(((got - want).abs() <= 1e-12).all()):
+                        ctx.violation("stepping:rebound", f"{label} ({wrap}): re-bound to another derivative after stepping, get({i}) differs from a fresh feature on that derivative",
+                                      {"feature": label, "observed": got.flatten().tolist(), "fresh": want.flatten().tolist()})
+                        raise StopIteration
+            except StopIteration:
+                pass
+            except Exception as e:
+                ctx.violation("stepping:raises", f"{label} ({wrap}) raised {type(e).__name__} when evaluated step by step out of order", {"error": repr(e)[:200]})
+
+
 def check(ctx: Ctx) -> None:
     warnings.filterwarnings("ignore")
     ex = ctx.tlc("MC_Session", "MC_Session_q_d3.cfg" if ctx.tier == "quick" else "MC_Session_t_d4.cfg", workers=8)
@@ -665,6 +764,8 @@ def check(ctx: Ctx) -> None:
     ctx.sections["interleavings_replayed"] = n
     reconfigured_objects(ctx)
     bound_handles(ctx)
+    stepping_order(ctx)
+    fit_after_backward(ctx)
     # ---- "... or dtypes the same hedger or features were used with before": behaviours of the dtype machine (Dtype.tla:
     # to()/float()/double()/half()/simulate()/register_buffer/set_default_dtype) with hedger objects that live through them,
     # compared after every operation with freshly built ones (the replay of checks/c17.py; only its reuse verdicts count here)
